@@ -1,4 +1,4 @@
-HOOK_COMMITS = ["54b21b4"]
+HOOK_COMMITS = ["54b21b4", "8bce86c"]
 NOTES = ("Model-based verification with an explicit TLA+ specification (spec/): TwigText/TwigValues/TwigSem/TwigSyntax are the "
          "reference semantics and printer; MC_Cxx are the bounded models TLC checks and enumerates; Trace_Cxx validate recorded "
          "behaviour of the implementation. Properties not yet listed under checks are still being built; until their check is "
@@ -56,6 +56,15 @@ CHECKS = {
                      "find the counterexamples of the two named deviations. Histories are replayed against the real cache set to the model's "
                      "capacity through the verif hook, and at production capacity with floods of fresh (type, name) pairs.",
                 ref="DESIGN.md 6/C20", note=_NOTE, technique="TLA+ memo model (CacheUnobservable) + TLC exhaustive/simulation, history replay at model capacity via hook"),
+    "C02": dict(level="model_checking",
+                text="Concurrency.tla models the calls as steps at the code's critical points with the location, access mode and lock of every step; "
+                     "TLC checks NoConflictingAccess, TokensIntact, RelativeNameOwn, SerialEquivalent, SingleOwner on all interleavings of 3 "
+                     "goroutines and must find the counterexample of each named deviation. Every complete schedule of 2 goroutines over the 5 "
+                     "gates is replayed through the hooks against the real engine with the model's result per call (and the gates each goroutine "
+                     "passes must be the model's steps). Ungated stress runs under the race detector with serial comparison; recorded "
+                     "RegisterString||Render histories are checked for linearizability by the TLC trace spec Trace_C02.",
+                ref="DESIGN.md 6/C02", note=_NOTE + " The race detector only sees executed interleavings; sync.Pool reuse is not controllable.",
+                technique="TLA+ interleaving model + TLC schedule enumeration replayed through gate hooks, race-detector stress, TLC linearizability trace validation"),
     "C03": _c("Map-consuming programs classified by TLC as order-sensitive (reference output changes under a permutation of the key order), "
               "every short date format, values carrying addresses; 24 renders on fresh engines/context values + 8 with reversed insertion "
               "order, in 3 independent sets of processes, all byte-identical (no reference order assumed).",
@@ -81,5 +90,4 @@ CHECKS = {
 }
 
 _ALL = ["C%02d" % i for i in range(1, 21)]
-NOT_APPLICABLE = {p: "check under construction in this session (specification module exists or is planned in DESIGN.md); not claimed until it runs green"
-                  for p in _ALL if p not in CHECKS}
+NOT_APPLICABLE = {p: "check under construction (not claimed until it runs green)" for p in _ALL if p not in CHECKS}
